@@ -1,0 +1,24 @@
+//go:build verif
+
+package transport
+
+import "net"
+
+// Hook for the verification harness. This file is only compiled with the build tag `verif`;
+// normal builds use verif_server_off.go, where verifServerYield is an empty, inlinable function.
+
+// verifServerYielder is implemented by the ServerProtocol of a verification harness that wants to
+// hold the calling goroutine at the named points of the server-side transport code.
+type verifServerYielder interface {
+	VerifServerYield(point string, conn net.Conn)
+}
+
+// verifServerYield calls the protocol's VerifServerYield, if it has one. Points:
+//
+//	"CloseIdles.beforeClose"  tcpHandler.CloseIdles has found the connection idle (numInvoke == 0, no
+//	                          activity for n seconds) and is about to close it
+func verifServerYield(p ServerProtocol, point string, conn net.Conn) {
+	if y, ok := p.(verifServerYielder); ok {
+		y.VerifServerYield(point, conn)
+	}
+}
